@@ -12,6 +12,9 @@ PLUGINS = {
     "C01": "harness.plug_query:C01",
     "C02": "harness.plug_query:C02",
     "C03": "harness.plug_query:C03",
+    "C04": "harness.plug_load:C04",
+    "C05": "harness.plug_mutate:C05",
+    "C13": "harness.plug_load:C13",
     "C06": "harness.plug_query:C06",
     "C07": "harness.plug_query:C07",
     "C08": "harness.plug_query:C08",
